@@ -190,6 +190,98 @@ pub fn gen_schema(r: &mut Rng, depth: u32) -> Vec<Value> {
     (0..nf).map(|i| gen_field(r, names[i], depth)).collect()
 }
 
+// ---------------------------------------------------------------- type variations (C03: type equality)
+
+const VARY_META_KEYS: [&str; 6] = ["k", "origin", "", "é", "ARROW:extension:name", "x y"];
+const VARY_META_VALS: [&str; 5] = ["v", "", "{\"a\": 1}", "my.ext", "日本"];
+
+fn vary_set_meta(f: &mut Value, mut kv: Vec<(String, String)>) {
+    kv.sort();
+    kv.dedup_by(|a, b| a.0 == b.0);
+    f["meta"] = Value::Array(kv.into_iter().map(|(k, v)| json!([k, v])).collect());
+}
+
+/// Decorate a generated field IN PLACE with everything that is part of a data type and that `gen_dt` never produces
+/// (C03 compares the TYPE of every returned array with the field's): metadata at every level — arbitrary keys and the
+/// `SERDE_ARROW:strategy` key with strategies that are valid for the position (UnknownVariant / InconsistentTypes on Null,
+/// TupleAsStruct / MapAsStruct on Struct) —, sorted maps, maps whose entries / key / value fields have other names and
+/// nullabilities (a nullable entries field must be refused; metadata on the entries field is the known finding
+/// C03-map-entries-metadata), sparse unions (must be refused), nullable union children and union fields.
+/// `in_union`: the field is a union variant.  The values generated afterwards only depend on positions and on the names
+/// of struct / variant fields, which stay as they are.
+pub fn vary_types(r: &mut Rng, f: &mut Value, in_union: bool) {
+    let t = f["dt"]["t"].as_str().unwrap().to_string();
+    let mut kv: Vec<(String, String)> = Vec::new();
+    if r.chance(1, 3) {
+        for _ in 0..1 + r.usize(2) {
+            kv.push((r.pick(&VARY_META_KEYS).to_string(), r.pick(&VARY_META_VALS).to_string()));
+        }
+    }
+    match t.as_str() {
+        "Null" if r.chance(1, 4) => {
+            let s = if in_union && r.chance(2, 3) { "UnknownVariant" } else { *r.pick(&["InconsistentTypes", "UnknownVariant", "TupleAsStruct", "MapAsStruct"]) };
+            kv.push(("SERDE_ARROW:strategy".into(), s.into()));
+        }
+        "Struct" if r.chance(1, 6) => kv.push(("SERDE_ARROW:strategy".into(), r.pick(&["TupleAsStruct", "MapAsStruct"]).to_string())),
+        _ => {}
+    }
+    if !kv.is_empty() {
+        vary_set_meta(f, kv);
+    }
+    match t.as_str() {
+        "Struct" => {
+            for c in f["dt"]["fields"].as_array_mut().unwrap() {
+                vary_types(r, c, false);
+            }
+        }
+        "List" | "LargeList" | "FixedSizeList" => vary_types(r, &mut f["dt"]["child"], false),
+        "Map" => {
+            if r.chance(1, 3) {
+                f["dt"]["sorted"] = json!(true);
+            }
+            let e = &mut f["dt"]["entries"];
+            if r.chance(1, 3) {
+                e["name"] = json!(*r.pick(&["kv", "", "key_value", "é"]));
+            }
+            if r.chance(1, 12) {
+                e["nullable"] = json!(true);
+            }
+            if r.chance(1, 12) {
+                vary_set_meta(e, vec![(r.pick(&VARY_META_KEYS).to_string(), r.pick(&VARY_META_VALS).to_string())]);
+            }
+            let cs = e["dt"]["fields"].as_array_mut().unwrap();
+            if r.chance(1, 3) {
+                cs[0]["name"] = json!(*r.pick(&["k", "keys", ""]));
+            }
+            if r.chance(1, 3) {
+                cs[1]["name"] = json!(*r.pick(&["v", "values", "value_raw"]));
+            }
+            if r.chance(1, 8) && cs[0]["dt"]["t"] != "Null" {
+                cs[0]["nullable"] = json!(true);
+            }
+            for c in cs.iter_mut() {
+                vary_types(r, c, false);
+            }
+        }
+        "Union" => {
+            if r.chance(1, 10) {
+                f["dt"]["mode"] = json!("Sparse");
+            }
+            if r.chance(1, 8) {
+                f["nullable"] = json!(true);
+            }
+            for c in f["dt"]["fields"].as_array_mut().unwrap() {
+                let ct = c[1]["dt"]["t"].as_str().unwrap().to_string();
+                if ct != "Null" && ct != "Union" && r.chance(1, 3) {
+                    c[1]["nullable"] = json!(true);
+                }
+                vary_types(r, &mut c[1], true);
+            }
+        }
+        _ => {}
+    }
+}
+
 // ---------------------------------------------------------------- values
 
 fn boundary_int(r: &mut Rng, lo: i128, hi: i128) -> i128 {
